@@ -135,3 +135,123 @@ fn call_and_check(m: Method, p: &mut super::Parser<'_>) -> [bool; 8] {
     let tok_off = (tok.as_ptr() as usize).wrapping_sub(data.as_ptr() as usize);
     a1_violations(m, data.as_bytes(), pos0, end0, p.start_cursor, p.end_cursor, tok.len(), tok_off)
 }
+
+// ---------------------------------------------------------------------------------------------------
+// Unicode pieces (harnesses `asql_tok_u_*`): strings assembled from whole UTF-8 pieces, among them white
+// space that is wider than one byte.  `char_indices` steps by 1, 2 or 3 bytes here; a cursor that is advanced
+// by one BYTE per white-space CHAR ends inside a code point and the next `&data[pos..]` panics.
+// ---------------------------------------------------------------------------------------------------
+
+/// ASCII space, tab, a letter, a delimiter, U+00A0 NO-BREAK SPACE (2 bytes), U+2003 EM SPACE (3 bytes), and a letter
+/// that is wider than a byte (U+00E9, 2 bytes).  `char::is_whitespace` is true for pieces 0, 1, 4, 5.
+const UPIECES: [&str; 7] = [" ", "\t", "a", ";", "\u{a0}", "\u{2003}", "\u{e9}"];
+
+/// byte length of the white-space piece that starts at byte `i` of `data` (0: no white space starts there)
+fn u_ws_len_at(data: &[u8], i: usize) -> usize {
+    let len = data.len();
+    if i >= len {
+        0
+    } else if data[i] == b' ' || data[i] == b'\t' {
+        1
+    } else if data[i] == 0xC2 && i + 1 < len && data[i + 1] == 0xA0 {
+        2
+    } else if data[i] == 0xE2 && i + 2 < len && data[i + 1] == 0x80 && data[i + 2] == 0x83 {
+        3
+    } else {
+        0
+    }
+}
+
+/// byte `i` of `data` starts a character (or is the end): what `str::is_char_boundary` says
+fn u_boundary(data: &[u8], i: usize) -> bool {
+    i == data.len() || (i < data.len() && (data[i] as i8) >= -0x40)
+}
+
+/// exactly the white-space characters of data[pos0..pos1] were skipped, whole, and pos1 rests on something that
+/// is not white space (or at the end)
+fn u_skipped_only_ws(data: &[u8], pos0: usize, pos1: usize) -> bool {
+    if pos1 < pos0 || pos1 > data.len() {
+        return false;
+    }
+    let mut i = pos0;
+    while i < pos1 {
+        let l = u_ws_len_at(data, i);
+        if l == 0 {
+            return false;
+        }
+        i += l;
+    }
+    i == pos1 && u_ws_len_at(data, pos1) == 0
+}
+
+/// A1 for the Unicode pieces: clauses 0..=5 as in `a1_violations` (they are statements about byte offsets and hold
+/// for any `str`), the white-space clause with white space that may be wider than a byte; [6]: a non-empty
+/// peek_one/eat_one token is exactly one character (1, 2 or 3 bytes); [7]: both cursors rest on char boundaries.
+fn u1_violations(m: Method, data: &[u8], pos0: usize, end0: usize, pos1: usize, end1: usize, tok_len: usize, tok_off: usize) -> [bool; 8] {
+    let len = data.len();
+    let mut v = [false; 8];
+    v[0] = !wf(pos1, end1, len);
+    v[1] = pos1 < pos0;
+    let empty = tok_len == 0;
+    match m {
+        Method::Take => {
+            v[2] = !(pos1 == end0 && end1 == end0);
+            v[3] = tok_len != end0 - pos0 || (!empty && tok_off != pos0);
+        }
+        Method::PeekWord | Method::PeekOne | Method::PeekQuoted => {
+            v[2] = tok_len != end1.wrapping_sub(pos1) || (!empty && tok_off != pos1);
+            v[4] = !u_skipped_only_ws(data, pos0, pos1);
+            if m != Method::PeekQuoted {
+                v[3] = empty && pos1 != len;
+            }
+        }
+        Method::EatWord | Method::EatOne | Method::EatQuoted => {
+            v[2] = end1 != pos1;
+            v[3] = !empty && !(pos1 > pos0);
+            v[5] = !empty && (tok_len > pos1 || tok_off != pos1 - tok_len || tok_off < pos0);
+            if m != Method::EatQuoted {
+                v[4] = empty && pos1 != len;
+            }
+        }
+    }
+    if (m == Method::PeekOne || m == Method::EatOne) && !empty {
+        // one character: the token starts on a boundary and the next boundary after its start is its end
+        let mut one = tok_off < len && u_boundary(data, tok_off) && u_boundary(data, tok_off + tok_len) && tok_len <= 4;
+        let mut i = 1;
+        while i < 4 {
+            one = one && !(i < tok_len && u_boundary(data, tok_off + i));
+            i += 1;
+        }
+        v[6] = !one;
+    }
+    v[7] = !(u_boundary(data, pos1) && u_boundary(data, end1));
+    v
+}
+
+const UCLAUSES: [&str; 8] = [
+    "wf': pos' <= end' <= len",
+    "pos' >= pos (the cursor never moves back)",
+    "cursor/token relation (take: pos' == end' == old end; peek: token == data[pos'..end']; eat: end' == pos')",
+    "emptiness clause (take/peek: token empty only as A1 allows; eat: non-empty token => pos' > pos)",
+    "end-of-input / whitespace clause (peek: exactly the leading white-space characters skipped, whole; eat_word/eat_one: \"\" only at end of input)",
+    "eat: token is the tail of the consumed input",
+    "peek_one/eat_one: exactly one character",
+    "both cursors rest on char boundaries",
+];
+
+/// as `call_and_check`, judged by `u1_violations`
+fn call_and_check_u(m: Method, p: &mut super::Parser<'_>) -> [bool; 8] {
+    let data: &str = p.data;
+    let (pos0, end0) = (p.start_cursor, p.end_cursor);
+    let tok: &str = match m {
+        Method::Take => p.take(),
+        Method::PeekWord => p.peek_word(),
+        Method::EatWord => p.eat_word(),
+        Method::PeekOne => p.peek_one(),
+        Method::EatOne => p.eat_one(),
+        Method::PeekQuoted => p.peek_quoted_string(),
+        Method::EatQuoted => p.eat_quoted_string(),
+    };
+    let tok_off = (tok.as_ptr() as usize).wrapping_sub(data.as_ptr() as usize);
+    u1_violations(m, data.as_bytes(), pos0, end0, p.start_cursor, p.end_cursor, tok.len(), tok_off)
+}
